@@ -71,7 +71,13 @@ def judge(case, impl_out, spec):
         if impl_out.startswith("pyexc"):
             return "a malformed string raises " + impl_out.split(" ")[1] + " instead of SyntaxError"
     if op == "USE" and impl_out.startswith("pyexc"):
-        return "an accepted annotation fails later, during a call, with " + impl_out.split(" ")[1]
+        exc = impl_out.split(" ")[1]
+        if spec.startswith("G") and exc in ("ZeroDivisionError", "ValueError", "OverflowError"):
+            # a string of the grammar whose ARITHMETIC is undefined for the sizes used here (division by zero, root of a
+            # negative, a negative exponent going through floating point): nothing parse-related; the class of such
+            # errors is C08's subject (F7)
+            return None
+        return "an accepted annotation fails later, during a call, with " + exc
     return None
 
 
